@@ -437,8 +437,8 @@ class C08(Check):
             jobs.append((ks, 'random', rng.randrange(1 << 30), 40 if not thorough else 120, rng.choice(sorted(CFGS))))
         if n >= 2 and not thorough:      # escalated quick run: a sample of the remaining pairs as well
             rest = [(a, b) for a in KINDS for b in KINDS if a not in QUICK_KINDS or b not in QUICK_KINDS]
-            for a, b in rng.sample(rest, min(len(rest), 30 * n)):
-                jobs.append(((a, b), 'single', rng.randrange(1000), 0, rng.choice(sorted(CFGS)), (0, 1, 600)))
+            for a, b in rng.sample(rest, min(len(rest), 10 * n)):
+                jobs.append(((a, b), 'single', rng.randrange(1000), 0, rng.choice(sorted(CFGS)), (0, 1, 300)))
         return jobs
 
     def _run(self, rng, n):
